@@ -82,7 +82,8 @@ impl Drop for Scratch {
 
 /// relative paths the harness is willing to touch: no absolute paths, no `..`, no NUL
 pub fn safe_rel(p: &str) -> bool {
-    !p.starts_with('/') && !p.contains('\0') && !p.contains('\\') && p.split('/').all(|c| c != "..")
+    // a backslash is an ordinary file-name character on the Unix hosts the check runs on (seeded change C13-7 needs such names)
+    !p.starts_with('/') && !p.contains('\0') && (cfg!(unix) || !p.contains('\\')) && p.split('/').all(|c| c != "..")
 }
 
 fn walk_into(root: &Path, rel: &str, out: &mut Vec<(String, Option<Vec<u8>>)>) {
